@@ -36,6 +36,10 @@ Violations(line) ==
   \cup R("actions", \E i \in 1..Len(o.results) : o.results[i].action # in.level[o.results[i].type])
      \* on success the reported results are exactly the prescribed ones
   \cup R("results", e.verdict = "success" /\ o.verdict = "success" /\ ResSet(o.results) # ResSet(e.results))
+     \* when an enforced validation fails, the outcome says which: the failed results the spec prescribes are among those reported
+     \* (a validation "fails" for a caller through its result and nothing else)
+  \cup R("failed-reported", e.verdict = "fail" /\ o.verdict = "fail" /\ o.out = "present" /\ e.out = "present" /\
+                            ~({r \in ResSet(e.results) : r.failed} \subseteq ResSet(o.results)))
      \* the authenticity result alone (C03, C04): whenever both the run and the spec report one, they agree
   \cup R("authenticity", ResOf(e.results, "authenticity") # {} /\ ResOf(o.results, "authenticity") # {}
                           /\ ResOf(o.results, "authenticity") # ResOf(e.results, "authenticity"))
